@@ -325,6 +325,22 @@ def main(ck: Check):
                         continue
                     add({"fn": "sf_trace", "m": meta_key(m), "ref": stat_vec8(ref_d), "n": max(res) if res else 0},
                         {"cap": cap, "t": res}, "Starforce.calculate_improvement (synthetic meta)")
+                    # star force is computed on the gear AS ENHANCED SO FAR (the reference stat): the same gear with
+                    # another BASE stat and the same reference stat gets the same bonus
+                    if cap and cap >= 1:
+                        other = dict(ref_d)
+                        other["magic_attack"] = 0 if other.get("magic_attack") else 77
+                        other["attack_power"] = other.get("attack_power", 0) + 5
+                        m2 = mk_meta(int(kind.value), lvl, sup, job, m.max_scroll_chance, base=Stat(**other))
+                        for n_star in {cap, min(cap, 5)}:
+                            r1 = call(lambda: Starforce(star=n_star).calculate_improvement(m, ref))
+                            r2 = call(lambda: Starforce(star=n_star).calculate_improvement(m2, ref))
+                            sweep.calls += 2
+                            if isinstance(r1, Stat) and (not isinstance(r2, Stat) or r1.model_dump() != r2.model_dump()):
+                                sweep.fail("the star-force bonus changes with the gear's BASE stat although the stat it is "
+                                           "computed on (the gear as enhanced so far) is the same", m, ref, star=n_star,
+                                           other_base_stat=other, observed=r2.short_dict() if isinstance(r2, Stat) else r2,
+                                           expected=r1.short_dict())
 
     # ------------------------------------------------------------ the answer does not depend on what was asked before
     # near-twins (same gear id, reference stats that differ in ONE field: an off-job main stat appearing, an attack
